@@ -28,6 +28,7 @@ pop_at = Function('pop_at', Seq, I, Seq)           # s.pop(i)
 ins_at = Function('ins_at', Seq, I, Name, Seq)     # s.insert(i, x) (python clamps i)
 empty = Const('empty', Seq)
 fold_add = Function('fold_add', Seq, Seq, I, Seq)  # fold_add(s, xs, k): add1 of xs[0..k-1] to s, in order
+erase_fold = Function('erase_fold', Seq, Seq, I, Seq)   # erase_fold(s, xs, k): xs[0..k-1] removed from s one by one
 keep = Function('keep', Seq, NSet, Seq)           # the elements of s that are in T, in the order of s
 infirst = Function('infirst', Seq, Name, I, B)     # infirst(xs, y, k): y = xs[t] for some 0 <= t < k
 w_infirst = Function('w.infirst', Seq, Name, I, I)
@@ -73,6 +74,9 @@ def axioms():
     A('F0', [s, xs], fold_add(s, xs, 0) == s, [fold_add(s, xs, 0)])
     A('F1', [s, xs, k], Implies(k >= 0, fold_add(s, xs, k + 1) == add1(fold_add(s, xs, k), at(xs, k))),
       [fold_add(s, xs, k + 1)])
+    # erase_fold (definition by recursion on k)
+    A('E0', [s, xs], erase_fold(s, xs, 0) == s, [erase_fold(s, xs, 0)])
+    A('E1', [s, xs, k], Implies(k >= 0, erase_fold(s, xs, k + 1) == erase(erase_fold(s, xs, k), at(xs, k))), [erase_fold(s, xs, k + 1)])
     # infirst (definition, skolemised)
     A('IF1', [xs, y, k], Implies(infirst(xs, y, k), And(0 <= w_infirst(xs, y, k), w_infirst(xs, y, k) < k,
                                                         at(xs, w_infirst(xs, y, k)) == y)), [infirst(xs, y, k)])
@@ -147,7 +151,17 @@ def selftest(universe=('a', 'b', 'c'), maxlen=3):
                 if v not in g:
                     g.append(v)
             assert g == cur
+            assert (len(u) == len(xs)) == nd(xs) and (not nd(xs) or u == xs)
             n += 1
+        if nd(s):
+            for r in range(len(universe) + 1):
+                for Tset in itertools.combinations(universe, r):
+                    drop = [v for v in s if v not in Tset]
+                    cur = list(s)
+                    for v in drop:
+                        cur.remove(v)
+                    assert cur == [v for v in s if v in Tset]
+                    n += 1
     return n
 
 
@@ -171,3 +185,24 @@ def st_fold_dedup(s, xs):
     (what tools.Unique(xs) holds) to s equals adding xs to s -- both append the unseen names in the order given."""
     u = fold_add(empty, xs, slen(xs))
     return fold_add(s, u, slen(u)) == fold_add(s, xs, slen(xs))
+
+
+def complement(T):
+    from z3 import Lambda
+    y = Const('y', Name)
+    return Lambda([y], Not(Select(T, y)))
+
+
+def st_erase_fold_keep(s, T, Tc):
+    """lemma.erase_fold_keep (ASSUMED, validated against CPython lists by selftest): removing from a duplicate-free s, one by one,
+    its elements that are not in T leaves exactly the elements in T, in their order:  erase_fold(s, keep(s, not T), len) = keep(s, T).
+    Tc must be the complement of T."""
+    y = Const('y', Name)
+    e = keep(s, Tc)
+    return Implies(And(nodup(s), ForAll([y], Select(Tc, y) == Not(Select(T, y)))), erase_fold(s, e, slen(e)) == keep(s, T))
+
+
+def st_fold_len(xs):
+    """lemma.fold_len (ASSUMED, validated by selftest): de-duplicating keeps the length iff there were no repeats, and then it is the identity."""
+    u = fold_add(empty, xs, slen(xs))
+    return And((slen(u) == slen(xs)) == nodup(xs), Implies(nodup(xs), u == xs))
